@@ -604,6 +604,9 @@ func ptCompare(e *env, c ptCase, r *ptResult, m ptModel) bool {
 			return bad("tree", m.Sexp, r.Sexp)
 		}
 		e.res.Histogram["tie:agree:tree"]++
+		for _, k := range ptKindRe.FindAllStringSubmatch(m.Sexp, -1) {
+			e.res.Histogram["tie:agree:node:"+k[1]]++
+		}
 	case "err":
 		if !r.ErrPos {
 			return bad("the error has no file position", "ErrFilePos", r.ErrText)
@@ -626,6 +629,27 @@ func ptCompare(e *env, c ptCase, r *ptResult, m ptModel) bool {
 		e.res.Histogram["tie:agree:error-position"]++
 	}
 	return true
+}
+
+// ptKinds: every node kind parse.SoyFile / parse.Expr can build (astsexp.go names).  The tree comparison
+// is field by field (every field of every node type, positions included); ptKindCoverage reports, as a
+// note, the kinds no agreeing tree of this run contained.
+var ptKindRe = regexp.MustCompile(`\((list|raw|print|dir|css|log|debugger|if|ifcond|for|switch|case|call|pval|pcontent|letv|letc|msg|ph|tag|plural|pcase|template|namespace|soydoc|sdparam|hparam|null|bool|int|float|str|global|func|listlit|maplit|ref|idx|key|exp|not|neg|bin|tern) `)
+
+var ptKinds = strings.Fields("raw print dir css log debugger if ifcond for switch case call pval pcontent letv letc msg ph tag plural pcase template namespace soydoc sdparam hparam null bool int float str global func listlit maplit ref idx key exp not neg bin tern")
+
+func ptKindCoverage(e *env) {
+	var missing []string
+	for _, k := range ptKinds {
+		if e.res.Histogram["tie:agree:node:"+k] == 0 {
+			missing = append(missing, k)
+		}
+	}
+	if len(missing) > 0 {
+		e.res.Note("node kinds in no agreeing tree of this run: %s", strings.Join(missing, " "))
+	} else {
+		e.res.Note("every node kind the parser builds (%d kinds) occurs in trees on which model and implementation agree field by field", len(ptKinds))
+	}
 }
 
 // ---------- float literals ----------
